@@ -4,10 +4,12 @@
 //! start with `ffi`), drives the real `extern "C"` functions, prints one canonical line per case.
 //! Line formats: PROTOCOL.md (section "ffi").
 mod cb;
+mod ctl;
 mod db;
 mod e2e;
 mod env;
 mod filt;
+mod reuse;
 mod tab;
 
 use std::io::{BufRead, Write};
@@ -28,6 +30,8 @@ fn run_case(line: &str) -> String {
         Some("flt") => filt::run_flt(&tok),
         Some("fltadd") => filt::run_fltadd(&tok),
         Some("fnet") => filt::run_fnet(&tok),
+        Some("reuse") => reuse::run_reuse(&tok),
+        Some("ctl") => ctl::run_ctl(&tok),
         other => format!("unknown-suite ffi {}", other.unwrap_or("")),
     }
 }
